@@ -42,6 +42,14 @@ OFFS = [0, 16]          # static offsets used for every memory instruction varia
 WAIT_OFFS = [0, 24]
 
 
+PUNS = [("i32.store", "f32.store", "i32.load"), ("f32.store", "i32.store", "f32.load"), ("i64.store", "f64.store", "i64.load"),
+        ("f64.store", "i64.store", "f64.load"), ("i64.store", "i32.store", "i64.load"), ("i64.store", "f32.store", "i64.load"),
+        ("f64.store", "i32.store", "f64.load"), ("i32.store", "i32.store16", "i32.load"), ("i32.store", "i32.store8", "i32.load16_s"),
+        ("i32.store", "i64.store32", "i32.load"), ("i64.store", "i64.store16", "i64.load32_s"), ("f32.store", "i32.store8", "f32.load"),
+        ("f32.store", "-", "i32.load"), ("i32.store", "-", "f32.load"), ("f64.store", "-", "i64.load"), ("i64.store", "-", "f64.load"),
+        ("f64.store", "-", "i32.load16_u"), ("i64.store", "f64.store", "i32.load8_s")]
+
+
 def add_memory_ops(g, shared):
     m = g.m
     # plain loads / stores
@@ -59,6 +67,17 @@ def add_memory_ops(g, shared):
         for off in OFFS + [65535] + ([70000, 300001] if op in ("i32.store", "i64.store32", "f32.store", "i32.store8") else []):
             nm = "%s_o%d" % (ident(op), off)
             g.add(nm, "i" + vt, "", [("local.get", 0), ("local.get", 1), (op, off)], "store", "%s,%d" % (op, off))
+    # several accesses of different types to one address inside one function (what an optimiser sees as one unit):
+    # store; store of another type (or none); load - all operands and the result travel as i64 bit patterns
+    to_t = {"i32": ["i32.wrap_i64"], "i64": [], "f32": ["i32.wrap_i64", "f32.reinterpret_i32"], "f64": ["f64.reinterpret_i64"]}
+    from_t = {"i32": ["i64.extend_i32_u"], "i64": [], "f32": ["i32.reinterpret_f32", "i64.extend_i32_u"], "f64": ["i64.reinterpret_f64"]}
+    for n, (s1, s2, ld) in enumerate(PUNS):
+        for off in (0, 16):
+            body = [("local.get", 0), ("local.get", 1)] + to_t[s1.split(".")[0]] + [(s1, off)]
+            if s2 != "-":
+                body += [("local.get", 0), ("local.get", 2)] + to_t[s2.split(".")[0]] + [(s2, off)]
+            body += [("local.get", 0), (ld, off)] + from_t[ld.split(".")[0]]
+            g.add("pun%d_o%d" % (n, off), "ijj", "j", body, "pun", "%s|%s|%s,%d" % (s1, s2, ld, off))
     g.add("size", "", "i", ["memory.size"], "size")
     g.add("grow", "i", "i", [("local.get", 0), "memory.grow"], "grow")
     g.add("copy", "iii", "", [("local.get", 0), ("local.get", 1), ("local.get", 2), ("memory.copy",)], "copy")
@@ -650,6 +669,17 @@ def gen_inst(outdir, seed, k):
     g.add("started", "", "i", [("global.get", GS)], "get")
     g.add("load8", "i", "i", [("local.get", 0), ("i32.load8_u", 0)], "load")
     g.add("store8", "ii", "", [("local.get", 0), ("local.get", 1), ("i32.store8", 0)], "store")
+    # several accesses of different types to one address inside one function (what an optimiser sees as one unit):
+    # store; store of another type (or none); load - all operands and the result travel as i64 bit patterns
+    to_t = {"i32": ["i32.wrap_i64"], "i64": [], "f32": ["i32.wrap_i64", "f32.reinterpret_i32"], "f64": ["f64.reinterpret_i64"]}
+    from_t = {"i32": ["i64.extend_i32_u"], "i64": [], "f32": ["i32.reinterpret_f32", "i64.extend_i32_u"], "f64": ["i64.reinterpret_f64"]}
+    for n, (s1, s2, ld) in enumerate(PUNS):
+        for off in (0, 16):
+            body = [("local.get", 0), ("local.get", 1)] + to_t[s1.split(".")[0]] + [(s1, off)]
+            if s2 != "-":
+                body += [("local.get", 0), ("local.get", 2)] + to_t[s2.split(".")[0]] + [(s2, off)]
+            body += [("local.get", 0), (ld, off)] + from_t[ld.split(".")[0]]
+            g.add("pun%d_o%d" % (n, off), "ijj", "j", body, "pun", "%s|%s|%s,%d" % (s1, s2, ld, off))
     g.add("size", "", "i", ["memory.size"], "size")
     g.add("grow", "i", "i", [("local.get", 0), "memory.grow"], "grow")
     g.add("calli", "i", "i", [("local.get", 0), ("call_indirect", tt)], "calli")
